@@ -1,4 +1,4 @@
-import TwistedProps.C22.Trailer
+import TwistedProps.C22.Overlong
 /-!
 C22 — chunked transfer coding round-trips and rejects malformed input.
 
@@ -13,10 +13,23 @@ Headline theorems (this file):
 * `rejects_bad_size_line` (+ `rejects_non_hex_size`, `rejects_bad_ext_byte`,
   `rejects_overlong_size_line`), `rejects_missing_crlf_after_data` — rejection under every
   segmentation;
-* `identity_decoder_exact`, `identity_data_loss`.
+* `rejects_overlong_size_line_no_crlf`, `partial_size_line_tolerated` — the size line whose CRLF
+  never arrives: 1025 CRLF-free bytes are refused, up to 1024 are waited on, under every segmentation;
+* `identity_decoder_exact`, `identity_data_loss`, `identity_until_close_exact`,
+  `identity_complete_noMoreData`, `identity_noMoreData_table`, `chunked_noMoreData_table`.
 
 Preconditions are the property's own: chunks non-empty, size line = hex digits [`;` extension over
 `_chunkExtChars`] of at most 1023 bytes, trailer fields (with their CRLFs) at most 2¹⁶ bytes.
+
+The bound on the size line, as the code enforces it (`maxChunkSizeLineLength = 1024`,
+`eolIndex >= 1024 or (eolIndex == -1 and len(buffer) > 1024)`), is two bounds:
+  * a line whose CRLF has arrived is accepted iff the CRLF starts at index ≤ 1023, i.e. the line
+    WITHOUT its CRLF is at most 1023 bytes (1025 with it) — `run_sizeLine`/`decode_encode` for
+    ≤ 1023, `rejects_overlong_size_line` for ≥ 1024;
+  * while no CRLF has arrived, up to 1024 bytes are buffered without complaint and the 1025th is
+    refused — `partial_size_line_tolerated` for ≤ 1024, `rejects_overlong_size_line_no_crlf` for ≥ 1025.
+The two agree on every stream: 1024 CRLF-free bytes that are tolerated are either 1023 line bytes
+plus the CR of an acceptable line, or the start of a line that is refused whatever comes next.
 -/
 namespace TwistedProps.C22
 open Twisted.Http.Chunked
@@ -498,6 +511,47 @@ theorem rejects_overlong_size_line (chunks : List Chunk) (line rest : Bytes) (cs
   obtain ⟨s, h1, _, h3, h4⟩ := rejects_bad_size_line chunks _ rest cs hc ⟨hno, Or.inl hlen⟩ hcs
   exact ⟨s, h1, h3, h4⟩
 
+/-- **Rejection of an overlong size line whose CRLF never arrives** (after any number of good
+    chunks): 1025 bytes in the size-line position with no CRLF among them, followed by anything
+    or nothing — however the stream is cut into deliveries, `dataReceived` raises
+    `_MalformedChunkedDataError` (so buffering is bounded); only the good chunks have been
+    delivered, `finishCallback` has not been called. -/
+theorem rejects_overlong_size_line_no_crlf (chunks : List Chunk) (junk rest : Bytes) (cs : List Bytes)
+    (hc : ∀ c ∈ chunks, c.wf) (hno : noCRLF junk = true) (hlen : 1025 ≤ junk.length)
+    (hcs : cs.flatten = (chunks.map encChunk).flatten ++ junk ++ rest) :
+    ∃ s, feedAll init cs = .error (.malformed, s) ∧ feed init cs = .error (.malformed, s) ∧
+      s.data = body chunks ∧ s.fin = [] := by
+  have hb : init.buffer ++ cs.flatten = (chunks.map encChunk).flatten ++ (junk ++ rest) := by
+    rw [hcs]; simp [init]
+  obtain ⟨s1, cs1, a1, a2, a3, a4, a5, a6, a7⟩ := run_chunks _ chunks hc cs init rfl startOK_init hb
+  obtain ⟨s2, ⟨b1, b2, _⟩, b3⟩ := run_overlongNoCRLF junk rest hno hlen cs1 s1 a1 a2 a3
+  have hfeed : feed init cs = .error (.malformed, s2) := by rw [feed_eq_run init cs rfl, a7, b3]
+  exact ⟨s2, feedAll_error_of_feed _ _ _ hfeed, hfeed, by rw [b1, a4]; simp [init], by rw [b2, a5]; rfl⟩
+
+/-- **The bound is exact**: a partial size line of at most 1024 CRLF-free bytes (after any number
+    of good chunks) is NOT refused, under any segmentation: every delivery is consumed without a
+    raise, nothing but the good chunks is delivered, the decoder waits in CHUNK_LENGTH holding
+    exactly the partial line — and if the stream ends there, `noMoreData()` raises `_DataLoss`. -/
+theorem partial_size_line_tolerated (chunks : List Chunk) (part : Bytes) (cs : List Bytes)
+    (hc : ∀ c ∈ chunks, c.wf) (hno : noCRLF part = true) (hlen : part.length ≤ 1024)
+    (hcs : cs.flatten = (chunks.map encChunk).flatten ++ part) :
+    ∃ s, feedAll init cs = .ok s ∧ s.state = .chunkLength ∧ s.buffer = part ∧
+      s.data = body chunks ∧ s.fin = [] ∧ noMoreData s = .error (.dataLoss, s) := by
+  have hb : init.buffer ++ cs.flatten = (chunks.map encChunk).flatten ++ part := by
+    rw [hcs]; simp [init]
+  obtain ⟨s1, cs1, a1, a2, a3, a4, a5, a6, a7⟩ := run_chunks _ chunks hc cs init rfl startOK_init hb
+  obtain ⟨s2, ⟨b1, b2, _⟩, b3, b4, b5⟩ := run_partialLine part hno hlen cs1 s1 a1 a2 a3
+  have hfeed : feed init cs = .ok (s2, []) := by rw [feed_eq_run init cs rfl, a7, b5]
+  refine ⟨s2, ?_, b3, b4, by rw [b1, a4]; simp [init], by rw [b2, a5]; rfl, by simp [noMoreData, b3]⟩
+  rw [feedAll_eq_feed_bind, hfeed]; rfl
+
+/-- `noMoreData()` of the chunked decoder, for every decoder state: silent exactly in FINISHED,
+    `_DataLoss` in the four others; no callback is called, nothing changes. -/
+theorem chunked_noMoreData_table (s : Dec) :
+    (s.state = .finished → noMoreData s = .ok s) ∧
+    (s.state ≠ .finished → noMoreData s = .error (.dataLoss, s)) := by
+  constructor <;> intro h <;> simp [noMoreData, h]
+
 /-- **Rejection of chunk data not followed by CRLF**: two bytes other than `\r\n` after the
     announced number of data bytes raise `_MalformedChunkedDataError` under every segmentation;
     the data of that chunk has been delivered. -/
@@ -675,6 +729,140 @@ theorem identity_data_loss : ∀ (cs : List Bytes) (s : Ident) (k : Nat), s.cont
     · simp only [Ident.feedAll, hstep, Except.bind]; exact h1
     · rw [h2]; simp [identPart]
 
+/-! ### `_IdentityTransferDecoder` without a `Content-Length`, and `noMoreData` in every state -/
+
+/-- the decoder after `dataCallback(b)` and nothing else -/
+def identMore (s : Ident) (b : Bytes) : Ident := { s with data := s.data ++ b }
+
+/-- `contentLength is None`: every delivery is passed on, the decoder never finishes by itself -/
+theorem ident_none_feed : ∀ (cs : List Bytes) (s : Ident), s.contentLength = none → s.active = true →
+    Ident.feedAll s cs = .ok (identMore s cs.flatten) ∧ Ident.feed s cs = .ok (identMore s cs.flatten, []) := by
+  intro cs
+  induction cs with
+  | nil => intro s _ _; simp [Ident.feedAll, Ident.feed, identMore]
+  | cons d cs ih =>
+    intro s hn ha
+    have hstep : Ident.dataReceived s d = .ok (identMore s d) := by
+      simp [Ident.dataReceived, identMore, ha, hn]
+    obtain ⟨h1, h2⟩ := ih (identMore s d) hn ha
+    have hm : identMore (identMore s d) cs.flatten = identMore s (d :: cs).flatten := by simp [identMore]
+    constructor
+    · simp only [Ident.feedAll, hstep, Except.bind]; rw [h1, hm]
+    · have hna : (!s.active) = false := by simp [ha]
+      simp only [Ident.feed, hna, Bool.false_eq_true, if_false, hstep, Except.bind]; rw [h2, hm]
+
+/-- **Identity decoder, body delimited by the end of the connection** (`contentLength=None`).
+    For every list of deliveries (empty ones included, none at all included): every byte is handed
+    to `dataCallback`, in order; `finishCallback` is not called while data arrives and no delivery is
+    held back; `noMoreData()` then calls `finishCallback` exactly once, with `b""`, and raises
+    `PotentialDataLoss`; after that any `dataReceived` raises `RuntimeError` and reaches no callback. -/
+theorem identity_until_close_exact (cs : List Bytes) :
+    ∃ s, Ident.feedAll (Ident.init none) cs = .ok s ∧ Ident.feed (Ident.init none) cs = .ok (s, []) ∧
+      s.data = cs.flatten ∧ s.fin = [] ∧ s.active = true ∧
+      ∃ s', Ident.noMoreData s = .error (.potentialDataLoss, s') ∧ s'.data = cs.flatten ∧ s'.fin = [[]] ∧
+        s'.active = false ∧ ∀ d, Ident.dataReceived s' d = .error (.runtime, s') := by
+  obtain ⟨h1, h2⟩ := ident_none_feed cs (Ident.init none) rfl rfl
+  refine ⟨_, h1, h2, by simp [Ident.init, identMore], rfl, rfl, _, rfl, by simp [Ident.init, identMore], rfl, rfl, ?_⟩
+  intro d; simp [Ident.dataReceived]
+
+/-- **`_IdentityTransferDecoder.noMoreData`, the outcome for every decoder state**
+    (`contentLength` ∈ {None, 0, > 0} × callbacks still set / already dropped).
+    * `contentLength is None`, `finishCallback` still set: `finishCallback(b"")`, then
+      `PotentialDataLoss`;
+    * `contentLength == 0` (all announced bytes seen, or `Content-Length: 0`): returns normally,
+      calls nothing — whether or not the callbacks are still set;
+    * `contentLength > 0`: `_DataLoss`, calls nothing — whether or not the callbacks are still set.
+    In every case both callbacks are dropped (`active = false`) and `dataCallback` saw nothing new.
+    The one remaining state, `contentLength is None` with the callbacks already dropped, is reached
+    only by a second `noMoreData()` on the same decoder; there the code calls `None(b"")`
+    (`TypeError`), which no caller does and the model does not represent (see ASSUMES). -/
+theorem identity_noMoreData_table (s : Ident) :
+    (s.contentLength = none → s.active = true →
+      Ident.noMoreData s = .error (.potentialDataLoss, { s with active := false, fin := s.fin ++ [[]] })) ∧
+    (s.contentLength = some 0 → Ident.noMoreData s = .ok { s with active := false }) ∧
+    (∀ k, s.contentLength = some (k + 1) → Ident.noMoreData s = .error (.dataLoss, { s with active := false })) := by
+  refine ⟨?_, ?_, ?_⟩
+  · intro h _; simp [Ident.noMoreData, h]
+  · intro h; simp [Ident.noMoreData, h]
+  · intro k h; simp [Ident.noMoreData, h]
+
+/-- the states a decoder can be in after any successful `dataReceived` calls: the callbacks are
+    dropped only together with `contentLength = 0`, and `contentLength is None` never drops them —
+    so the table above covers every state reachable before the first `noMoreData()` -/
+theorem ident_reachable (n : Option Nat) (cs : List Bytes) (s : Ident) (h : Ident.feedAll (Ident.init n) cs = .ok s) :
+    (s.contentLength = none → s.active = true) ∧ (s.active = false → s.contentLength = some 0) := by
+  suffices H : ∀ (cs : List Bytes) (s0 s : Ident), Ident.feedAll s0 cs = .ok s →
+      ((s0.contentLength = none → s0.active = true) ∧ (s0.active = false → s0.contentLength = some 0)) →
+      ((s.contentLength = none → s.active = true) ∧ (s.active = false → s.contentLength = some 0)) from
+    H cs _ s h ⟨fun _ => rfl, fun h => by simp [Ident.init] at h⟩
+  intro cs
+  induction cs with
+  | nil => intro s0 s h h0; simp [Ident.feedAll] at h; rw [← h]; exact h0
+  | cons d cs ih =>
+    intro s0 s h h0
+    simp only [Ident.feedAll] at h
+    cases hd : Ident.dataReceived s0 d with
+    | error e => simp [hd, Except.bind] at h
+    | ok s1 =>
+      simp only [hd, Except.bind] at h
+      refine ih s1 s h ?_
+      unfold Ident.dataReceived at hd
+      split at hd
+      · simp at hd
+      · rename_i ha
+        have ha' : s0.active = true := by simpa using ha
+        split at hd
+        · simp at hd; subst hd; simp_all
+        · split at hd
+          · simp at hd; subst hd; simp_all
+          · simp at hd; subst hd; simp
+
+/-- a decoder whose callbacks are gone after a successful `dataReceived` has `contentLength == 0` -/
+theorem ident_dataReceived_done (s s' : Ident) (d : Bytes) (h : Ident.dataReceived s d = .ok s')
+    (hi : s'.active = false) : s'.contentLength = some 0 := by
+  unfold Ident.dataReceived at h
+  split at h
+  · simp at h
+  · split at h
+    · simp at h; subst h; simp_all
+    · split at h
+      · simp at h; subst h; simp_all
+      · simp at h; subst h; rfl
+
+theorem ident_feed_done (s s' : Ident) (cs rest : List Bytes) (h : Ident.feed s cs = .ok (s', rest))
+    (h0 : s.active = false → s.contentLength = some 0) (hi : s'.active = false) : s'.contentLength = some 0 := by
+  induction cs generalizing s with
+  | nil => simp [Ident.feed] at h; rw [← h.1] at hi ⊢; exact h0 hi
+  | cons d cs ih =>
+    by_cases ha : s.active = true
+    · simp only [Ident.feed, ha, Bool.not_true] at h
+      cases hd : Ident.dataReceived s d with
+      | error e => simp [hd, Except.bind] at h
+      | ok s1 =>
+        simp only [hd, Except.bind] at h
+        exact ih s1 h (ident_dataReceived_done s s1 d hd)
+    · have ha' : s.active = false := by simpa using ha
+      simp [Ident.feed, ha'] at h; rw [← h.1] at hi ⊢; exact h0 hi
+
+/-- **Identity decoder, complete body, then the connection ends.**  With `Content-Length: n` and at
+    least `n` bytes in (at least one) deliveries: after the single `finishCallback(e)` of
+    `identity_decoder_exact`, `noMoreData()` returns normally and calls nothing more — exactly the
+    first `n` bytes delivered, `finishCallback` called exactly once in all. -/
+theorem identity_complete_noMoreData (n : Nat) (cs : List Bytes) (hne : cs ≠ []) (hlen : n ≤ cs.flatten.length) :
+    ∃ s rest e s', Ident.feed (Ident.init (some n)) cs = .ok (s, rest) ∧ Ident.noMoreData s = .ok s' ∧
+      s'.data = cs.flatten.take n ∧ s'.fin = [e] ∧ e ++ rest.flatten = cs.flatten.drop n := by
+  obtain ⟨s, rest, e, h1, h2, h3, h4, h5⟩ := ident_exact_aux cs (Ident.init (some n)) n rfl rfl hne hlen
+  have h0 := ident_feed_done _ s cs rest h1 (by simp [Ident.init]) h2
+  refine ⟨s, rest, e, { s with active := false }, h1, (identity_noMoreData_table s).2.1 h0, ?_, ?_, h5⟩
+  · simpa [Ident.init] using h3
+  · simpa [Ident.init] using h4
+
+/-- `Content-Length: 0` and not a single `dataReceived` call: `noMoreData()` returns normally and
+    `finishCallback` is never called (the code calls it only from `dataReceived`) -/
+theorem identity_zero_no_delivery :
+    Ident.noMoreData (Ident.init (some 0)) = .ok { Ident.init (some 0) with active := false } ∧
+    ({ Ident.init (some 0) with active := false } : Ident).fin = [] := ⟨rfl, rfl⟩
+
 /-! ### Non-vacuity: the hypotheses hold on concrete, non-trivial values -/
 
 /-- `3;x=y\r\nabc\r\n` and `0A\r\n0123456789\r\n` -/
@@ -755,5 +943,39 @@ example : ∃ s rest e, feed init [[49, 13, 10, 90], [13, 10, 50, 13, 10, 90, 90
 example : ∃ s rest e, Ident.feed (Ident.init (some 3)) [[97, 98], [], [99, 100], [101]] = .ok (s, rest) ∧
       s.data = [97, 98, 99] ∧ s.fin = [e] ∧ e ++ rest.flatten = [100, 101] :=
   identity_decoder_exact 3 _ (by simp) (by decide)
+
+/-- 1027 bytes `3;eee…e` with no CRLF, delivered as 1002 + 25 bytes (the second delivery raises),
+    then the CRLF that comes too late -/
+theorem exJunk_ok : noCRLF ((51 :: 59 :: List.replicate 1000 101) ++ List.replicate 25 101) = true ∧
+    1025 ≤ ((51 :: 59 :: List.replicate 1000 101) ++ List.replicate 25 101 : Bytes).length := by
+  refine ⟨noCRLF_of_no_CR _ ?_, by simp only [List.length_append, List.length_cons, List.length_replicate]; omega⟩
+  intro c hc
+  simp only [List.mem_append, List.mem_cons, List.mem_replicate] at hc
+  rcases hc with (rfl | rfl | ⟨_, rfl⟩) | ⟨_, rfl⟩ <;> decide
+
+example : ∃ s, feedAll init [51 :: 59 :: List.replicate 1000 101, List.replicate 25 101, [13, 10]] =
+      .error (.malformed, s) ∧ s.data = [] ∧ s.fin = [] := by
+  obtain ⟨s, h1, _, h3, h4⟩ := rejects_overlong_size_line_no_crlf []
+    ((51 :: 59 :: List.replicate 1000 101) ++ List.replicate 25 101) [13, 10]
+    [51 :: 59 :: List.replicate 1000 101, List.replicate 25 101, [13, 10]] (by simp) exJunk_ok.1 exJunk_ok.2
+    (by simp only [List.flatten_cons, List.flatten_nil, List.map_nil, List.nil_append, List.append_nil,
+          List.append_assoc])
+  exact ⟨s, h1, by simpa [body] using h3, h4⟩
+
+/-- `3;e` then a lone CR: tolerated -/
+example : ∃ s, feedAll init [[51, 59], [], [101, 13]] = .ok s ∧ s.state = .chunkLength ∧ s.buffer = [51, 59, 101, 13] ∧
+    s.data = body [] ∧ s.fin = [] ∧ noMoreData s = .error (.dataLoss, s) :=
+  partial_size_line_tolerated [] [51, 59, 101, 13] _ (by simp) (by decide) (by decide) (by decide)
+
+example : ∃ s, Ident.feedAll (Ident.init none) [[97, 98], [], [99]] = .ok s ∧
+    Ident.feed (Ident.init none) [[97, 98], [], [99]] = .ok (s, []) ∧
+    s.data = [97, 98, 99] ∧ s.fin = [] ∧ s.active = true ∧
+    ∃ s', Ident.noMoreData s = .error (.potentialDataLoss, s') ∧ s'.data = [97, 98, 99] ∧ s'.fin = [[]] ∧
+      s'.active = false ∧ ∀ d, Ident.dataReceived s' d = .error (.runtime, s') :=
+  identity_until_close_exact [[97, 98], [], [99]]
+
+example : ∃ s rest e s', Ident.feed (Ident.init (some 3)) [[97, 98], [99, 100], [101]] = .ok (s, rest) ∧
+    Ident.noMoreData s = .ok s' ∧ s'.data = [97, 98, 99] ∧ s'.fin = [e] ∧ e ++ rest.flatten = [100, 101] :=
+  identity_complete_noMoreData 3 _ (by simp) (by decide)
 
 end TwistedProps.C22
